@@ -28,6 +28,8 @@ def obligations(tier):
     ]
     out.append(dict(engine="verus", unit="completion", function="FindVisitor::select_spanned", name="C20/completion/FindVisitor_select_spanned", source=COMP + "::FindVisitor::select_spanned",
                     clause="for ANY number of ordered siblings and any cursor: terminates without panic; (false, Some(x)) => x is the first sibling containing the cursor; (true, prev) => no sibling contains it, prev is the last sibling before the cursor (or the first one if the cursor precedes all), None only for an empty list"))
+    out.append(dict(engine="verus", unit="completion", function="FindVisitor::visit_one", name="C20/completion/FindVisitor_visit_one", source=COMP + "::FindVisitor::visit_one",
+                    clause="selecting one child to descend into never panics, for every sibling list including the empty one (`[]`)"))
     ns = [1, 2, 3] if tier == "quick" else [1, 2, 3, 4]
     for n in ns:
         out.append(k("gluon_completion", COMP, "c20__select__siblings_%d" % n,
